@@ -132,7 +132,7 @@ def intent(cfg, op):
         w, e = wire_key(cfg, op[1]), as_int(op[2], *I64)
         return None if w is None or e is None else [("touch", w, e, nr(op[3]))]
     if code == 14:
-        d = as_int(op[1], 0, 2 ** 63 - 1)
+        d = as_int(op[1], 0, float('inf'))
         return None if d is None else [("flush_all", d, nr(op[2]))]
     raise ValueError(op)
 
